@@ -578,7 +578,8 @@ def param_text(rng: random.Random, i: int) -> tuple[str, str, str, str | None]:
 	name = ''.join(rng.choice(IDENT[:7]) for _ in range(rng.randint(1, 5)))
 	default: str | None = None
 	if rng.random() < 0.6:
-		default = render(gen_items(rng, i % 3, 'clean', 1 + i % 4, 0.3)).strip(' ')
+		# every default fragment (param_unrestricted): also strings that hold brackets and the other quote
+		default = render(gen_items(rng, i % 3, 'dirty' if i % 4 == 3 else 'clean', 1 + i % 4, 0.3)).strip(' ')
 		if default == '':
 			default = '0'
 	var_type = ' '.join(types)
@@ -1406,7 +1407,7 @@ def check_param(text: str, var_type: str, symbol: str, default: str | None) -> t
 
 def search_param(ctx: Ctx) -> SearchResult:
 	rng = ctx.sub_rng('law-param')
-	res = SearchResult('Param.parse on "type name [= default]": var_type, symbol, default_value equal the generated parts (clean fragments)')
+	res = SearchResult('Param.parse on "type name [= default]": var_type, symbol, default_value equal the generated parts (clean type tokens; defaults also with brackets and quotes inside strings)')
 	hist: dict[str, int] = {}
 	seen: set[str] = set()
 	res.cases += 1
@@ -1670,6 +1671,7 @@ STATEMENTS: dict[str, str] = {
 	'sep_multichar_spec / sep_multichar_rejoin / callsites_delim_guard': 'for a multi-character delimiter that can not overlap itself (first character does not recur, no bracket/quote character: ", ", ": ", " ="; not " = " or "::"): the exact pieces for every fragment and the rejoin law d.join(segments) = text, pieces = stripped segments; every delimiter literal of the generated call-site table satisfies the guard (decide)',
 	'query_any_args': 'DecoratorQuery.any_args(subject) (production: deco_ignore.any_args(inherit) in class/_inherits.j2) = the decorators whose text between the first "(" and the last character contains subject, in order; for path(args) that text is args',
 	'quoted_literal / quoted_literal_spec / quoted_simple_string': 'is_quoted_literal(q + body + q, q) for a one-character quote = every quote character of the body stands behind a backslash (one in the first position never does); on EVERY text the result is quotedSpec (empty: no; the quote alone: yes; otherwise starts and ends with the quote and the inside is escaped); the loop never exhausts its fuel; the simple strings of the fragment grammar are quoted literals',
+	'var_type_origin_spec': 'Param.var_type_origin on EVERY (ASCII) text = the direct reading varTypeOriginSpec: on the regex branch the longest run of [A-Za-z0-9_:] behind const + white space when a name follows there, else at the very start (the optional group is given back: "const *" gives "const"), TypeError (None[2]) when no name character stands there - proved over the generated regular expression run by the backtracking matcher (greedy and backtracking lemmas rep_set_greedy / rep_set_fail)',
 	'var_type_pattern / var_type_origin_plain / var_type_origin_const': 'Param.var_type_origin of [const ␠+] base [<…>] [*|&] = base for every non-empty base over [A-Za-z0-9_:] and every template-argument text: on the regex branch the GENERATED term of Param.VarType (var_type_pattern ties the proof to it) run by the backtracking matcher - the optional group takes const and all white space / is skipped, group 2 is the longest name run - and on the split("<")[0] branch',
 	'parse_dict_spec / pair_spec / pair_spec_even': 'dict-like texts name{item, item, …} (every item a blank-free token - identifier characters, strings, groups of the other bracket kinds with anything inside, also directly adjacent - or a possibly named nested block; one delimiter character of D and any number of blanks between items; unbounded nesting; every bracket kind, every set D of plain non-blank delimiter characters): parse() builds exactly the entry tree of the items, and parse_pair returns the consecutive (key, value) texts of the items followed by those of the nested blocks (two levels = Entry.unders, sorted by depth, pairs of equal depth only); with an even number of items: pairs of the dict, then pairs of the nested dicts',
 	'format_spec': 'parse_to_formatter(name{items}, brackets, D).format() with the default formats = the canonical text of the structure (tokens as they are, the items of every block joined by the delimiter string and exactly one blank) however many blanks the text had behind its delimiters - the rejoin law up to blanks; needs tokens that do not begin with white space and block names without the opening bracket',
@@ -1760,9 +1762,9 @@ def run(ctx: Ctx) -> int:
 		translate_ok=translate_ok, translate_msg=translate_msg,
 		statements={**STATEMENTS, **({'(retired call sites)': 'no longer production call sites of a BlockParser helper per the generated scan - the caller_* theorems about them remain statements about the helper composition only: ' + ', '.join(f'{op} = {CALLER_SITES[op][0]}' for op in sorted(retired_callers()))} if retired_callers() else {})},
 		partial={
-			'proved (all fragments, unbounded nesting, induction on Frag)': 'splitting = exact top-level split (hence cuts only at top-level delimiters, rejoin up to blanks, balanced pieces) for fragments with arbitrary simple strings; last bracket group of prefix+group (strings may contain the other bracket kinds and quotes); error branch; skip; decorator path/join_args/pieces and the key/value of positional and labelled pieces; parameter type/name/default for every default fragment; parse_bracket = the groups two levels deep in pre-order; the production callers (throw / dict-comprehension / pluck / indexer / is_initializer_call; the former range splitting only as a statement about the helpers); DecoratorQuery.any / contains / any_args; termination of _parse/_parse_block/_analyze_entry on every text; the parse_pair law, the entry tree of parse and the format() round trip on dict-like texts with delimiters (pair_spec, parse_dict_spec, format_spec: unbounded nesting, every bracket kind and delimiter set); is_quoted_literal for a one-character quote on every text (exact characterisation); Param.var_type_origin on [const] base [<…>] [*|&] over the generated regular expression',
+			'proved (all fragments, unbounded nesting, induction on Frag)': 'splitting = exact top-level split (hence cuts only at top-level delimiters, rejoin up to blanks, balanced pieces) for fragments with arbitrary simple strings; last bracket group of prefix+group (strings may contain the other bracket kinds and quotes); error branch; skip; decorator path/join_args/pieces and the key/value of positional and labelled pieces; parameter type/name/default for every default fragment; parse_bracket = the groups two levels deep in pre-order; the production callers (throw / dict-comprehension / pluck / indexer / is_initializer_call; the former range splitting only as a statement about the helpers); DecoratorQuery.any / contains / any_args; termination of _parse/_parse_block/_analyze_entry on every text; the parse_pair law, the entry tree of parse and the format() round trip on dict-like texts with delimiters (pair_spec, parse_dict_spec, format_spec: unbounded nesting, every bracket kind and delimiter set); is_quoted_literal for a one-character quote on every text (exact characterisation); Param.var_type_origin on every ASCII text over the generated regular expression (var_type_origin_spec; [const] base [<…>] [*|&] gives base)',
 			'formerly false, proved after the repairs 3111a97 d6d867d eb33d21 f350973': 'param_unrestricted, decorator_positional, sep_spec_dirty, bracket_first/bracket_spec; the old witnesses are replayed from corpus/C18 and by the searches and must pass',
-			'correspondence + search only': 'parse / parse_pair outside the dict-like shape (blanks inside or in front of a delimiter, text behind a nested block: stream block-dictlike loose variants); DecoratorHelper.match / match_args (regular expressions with caller-supplied patterns: no shipped pattern and no call site exists - the generated call-site scan finds none - so they are checked by search against CPython re only); multi-character delimiters that contain a bracket character or overlap themselves ("->", "::": correspondence only; the overlap counterexample is a theorem), empty delimiter, brackets arguments of other lengths, unbalanced text (correspondence); parse_to_formatter(…).format() with other join/block formats or an alt_formatter (structure-side oracle by search; the default formats are proved: format_spec) and outside the dict-like shape (stream block-view); is_quoted_literal with multi-character or empty quotes, var_type_origin outside the shape (correspondence)',
+			'correspondence + search only': 'parse / parse_pair outside the dict-like shape (blanks inside or in front of a delimiter, text behind a nested block: stream block-dictlike loose variants); DecoratorHelper.match / match_args (regular expressions with caller-supplied patterns: no shipped pattern and no call site exists - the generated call-site scan finds none - so they are checked by search against CPython re only); multi-character delimiters that contain a bracket character or overlap themselves ("->", "::": correspondence only; the overlap counterexample is a theorem), empty delimiter, brackets arguments of other lengths, unbalanced text (correspondence); parse_to_formatter(…).format() with other join/block formats or an alt_formatter (structure-side oracle by search; the default formats are proved: format_spec) and outside the dict-like shape (stream block-view); is_quoted_literal with multi-character or empty quotes (correspondence)',
 		},
 		assumptions=[
 			'fragments are rendered with the ASCII bracket/quote characters of BlockParser._all_pair (generated table; the proofs are redone when it changes)',
